@@ -39,9 +39,13 @@ def canon(v, round32=False):
     if t in (list, tuple):
         return ("seq", tuple(canon(x, round32) for x in v))
     if t is dict:
-        return ("map", tuple(sorted(((canon(k, round32), canon(x, round32)) for k, x in v.items()), key=repr)))
+        # (keys that are distinct doubles but one float32 are one key on the wire: the later entry stands, as in any dict)
+        m = {}
+        for k, x in v.items():
+            m[canon(k, round32)] = canon(x, round32)
+        return ("map", tuple(sorted(m.items(), key=repr)))
     if t is set:
-        return ("set", tuple(sorted((canon(x, round32) for x in v), key=repr)))
+        return ("set", tuple(sorted(set(canon(x, round32) for x in v), key=repr)))
     if isinstance(v, SerializableEnum):
         return ("enum", type(v).__name__, canon(v.value, round32))
     if isinstance(v, Serializable):
@@ -259,12 +263,13 @@ def make_classes(r, tag, n_classes=6, n_enums=3):
                 _S.serialize_value(stream, inner)
                 _S.serialize_value(stream, self.tail)
 
-            def _deser(self, stream, **kwargs):
+            def _deser(self, stream, _ret=(r.random() < 0.5), **kwargs):
                 self.tag = _S.deserialize_value(stream, **kwargs)
                 inner = _S.deserialize_value(stream, **kwargs)
                 self.body = _S.Serializable.loadb(inner) if inner else None
                 self.tail = _S.deserialize_value(stream, **kwargs)
-                return self
+                # (every other such class fills itself in place and returns nothing, as a plain method would)
+                return self if _ret else None
             Env = type("SE%s_%d" % (tag, _COUNTER[0]), (Serializable,), {"__annotations__": {"tag": int, "body": object, "tail": str}, "tag": 0, "body": None, "tail": "",
                                                                    "serialize": _ser, "deserialize": _deser})
 
